@@ -15,7 +15,8 @@ from vlib import Broken, Model
 LIB = ["varintTagged.c", "varintExternal.c", "varintDelta.c", "varintFOR.c", "varintPFOR.c", "varintGroup.c",
        "varintDict.c", "varintRLE.c", "varintElias.c", "varintBP128.c", "varintAdaptive.c", "varintBitmap.c"]
 BUILD = dict(extra_flags=["-std=gnu11"] + vlib.SHIM_LD, extra_src=["allocshim.c"])
-SCEN = re.compile(r'<<\s*"SCEN",\s*"(\w+)",\s*(-?\d+),\s*(\d+),\s*"(\w+)",\s*(-?\d+)\s*>>', re.S)
+SCEN = re.compile(r'<<\s*"SCEN",\s*"(\w+)",\s*(-?\d+),\s*(\d+),\s*"(\w+)",\s*(-?\d+),\s*(-?\d+),\s*(-?\d+),\s*(-?\d+)\s*>>', re.S)
+SEL = re.compile(r'<<\s*"SEL",\s*"([^"]+)",\s*"(\w+)",\s*(\d+),\s*(-?\d+),\s*(-?\d+),\s*(-?\d+),\s*(-?\d+),\s*"(\w+)",\s*(\d+)\s*>>', re.S)
 WHAT = {"C02": 1, "C06": 1, "C03": 2, "C13": 4, "C16": 8}
 PURPOSE = {"C02": "c02", "C06": "c06", "C03": "c03", "C13": "c13", "C16": "c16"}
 
@@ -38,14 +39,31 @@ def scenarios(work, tier, purpose, model):
                 % (tier, purpose))
     r = vlib.tlc_or_broken("Scenarios.tla", cfg, workers=4, xmx="2g")
     model.add("Scenarios[%s,%s]" % (tier, purpose), r)
-    sc = sorted({"%s %s %s %s %s" % m for m in SCEN.findall(r["out"])})
+    sc = sorted({"%s %s %s %s %s %s %s %s" % m for m in SCEN.findall(r["out"])})
     if len(sc) < 50:
         raise Broken("Scenarios.tla produced too few scenarios (%d)" % len(sc))
+    predicted = {}
+    if purpose != "c02":
+        # inputs on, below and above every threshold of the adaptive selection tree
+        cfg2 = os.path.join(work, "Selector.cfg")
+        with open(cfg2, "w") as f:
+            f.write('SPECIFICATION Spec\nCONSTANT Tier = "%s"\nINVARIANT Emit\nCHECK_DEADLOCK FALSE\n' % tier)
+        r2 = vlib.tlc_or_broken("Selector.tla", cfg2, workers=4, xmx="2g")
+        model.add("Selector[%s]" % tier, r2)
+        sel = SEL.findall(r2["out"])
+        if len(sel) < 40:
+            raise Broken("Selector.tla produced too few recipes (%d)" % len(sel))
+        forced = [-1, 0, 1, 2, 3, 4, 5] if purpose == "c06" else [-1]
+        for (edge, sh, n, p1, p2, p3, p4, leaf, typ) in sel:
+            predicted[(sh, int(n), int(p1), int(p2), int(p3), int(p4))] = (edge, leaf, int(typ))
+            for fp in forced:
+                sc.append("adaptive %d %s %s %s %s %s %s" % (fp, n, sh, p1, p2, p3, p4))
+        sc = sorted(set(sc))
     # heavy scenarios first so shards balance
     path = os.path.join(work, "scenarios.txt")
     with open(path, "w") as f:
         f.write("\n".join(sc) + "\n")
-    return path, len(sc)
+    return path, len(sc), predicted
 
 
 def key(ev):
@@ -116,12 +134,38 @@ def _run_neg(events):
     return {"ran": True, "rejected": True, "reasons": sorted({x[2] for x in real})}
 
 
+def selector_agreement(traces, predicted):
+    """Coverage information only: did the real selector take the leaf Selector.tla predicts for each
+    threshold recipe?  A lossless selector that chooses differently does not violate C06."""
+    seen, agree, drift = 0, 0, []
+    for t in traces:
+        with open(t) as f:
+            for ln in f:
+                if '"e":"Enc"' not in ln.replace(" ", "") or '"codec":"adaptive"' not in ln.replace(" ", ""):
+                    continue
+                ev = json.loads(ln)
+                if ev.get("param") != -1:
+                    continue
+                k = (ev["shape"], ev["n"], ev["sparam"], ev.get("p2", 0), ev.get("p3", 0), ev.get("p4", 0))
+                if k not in predicted:
+                    continue
+                seen += 1
+                edge, leaf, typ = predicted[k]
+                got = ev.get("meta", {}).get("type", -9)
+                if got == typ:
+                    agree += 1
+                elif len(drift) < 10:
+                    drift.append({"edge": edge, "recipe": list(k), "predicted": leaf, "predicted_type": typ, "got_type": got})
+    return {"recipes": len(predicted), "auto_runs_seen": seen, "chose_predicted_leaf": agree, "drift_examples": drift,
+            "leaves": sorted({v[1] for v in predicted.values()})}
+
+
 def run(pid, tier):
     t0 = time.time()
     work = vlib.scratch(pid)
     model = Model()
     try:
-        path, nsc = scenarios(work, tier, PURPOSE[pid], model)
+        path, nsc, predicted = scenarios(work, tier, PURPOSE[pid], model)
         tiers = tiers_for(pid, tier)
         shards = vlib.NCPU
         traces, cmds = [], []
@@ -135,6 +179,7 @@ def run(pid, tier):
         events, rejects, _ = vlib.validate(traces, "StoreTrace.tla", "StoreTrace.cfg", xmx="3g", timeout=1500)
         negc = negative_control(traces, pid)
         classes, samples = vlib.classes_of(traces, key)
+        selinfo = selector_agreement(traces, predicted) if predicted else None
         rule = ("scenario leaves enumerated by TLC from Scenarios.tla (%d leaves: codec x parameter x length class "
                 "straddling 127/128/129, 240/241, 2287/2288, 4095/4096/4097%s x value shape), materialised with "
                 "VERIF_SEED, run on tiers %s with exact-size guard-page buffers; class = distinct (codec, parameter, "
@@ -145,6 +190,7 @@ def run(pid, tier):
                             "guard pages make any access at or beyond the exact buffer end observable; accesses "
                             "before a buffer are not observed",
                             "inputs inside a scenario class are sampled by seed, not enumerated"],
-                           extra={"negative_control": negc, "tiers": tiers, "scenarios": nsc})
+                           extra={"negative_control": negc, "tiers": tiers, "scenarios": nsc,
+                                  "selector_recipes": selinfo})
     finally:
         shutil.rmtree(work, ignore_errors=True)
